@@ -31,6 +31,19 @@
 //     entry (incl. its errors, and whether it is the cached one) is compared with the sequential
 //     answer; pipeline 0 converts each of these nodes once while building the set and reports a
 //     node for which a second call does not return the cached entry (guard of toentry-miss);
+//   - GetErrors storm: in sets with errors (every fourth round) module m0 holds inner containers
+//     with 3, 5, 6 and 7 errors of their own (uses of unknown groupings, children with the same
+//     name) above erroneous leaves; in the storm phase all readers call GetErrors on every entry
+//     that holds errors or stands above one, same order, three times, and every returned list
+//     (order included) is compared with the sequential one;
+//   - orphan submodules: half of the sets (once submodule is a statement kind of the process)
+//     load a submodule explicitly that no module includes: Process converts it but never links
+//     its imports, and nothing resolves their prefixes while the set is built (they occur in
+//     leafref paths and must / when expressions only).  The builder makes no look-up on the shared
+//     set; every reader BEGINS with r.Find(r.Type.Path) on the leafref leaves of the orphan's own
+//     tree (ToEntry(ms.SubModules[x])) and Find of the must / when paths from their nodes.  The
+//     trees of all submodules are reader roots like the module trees; expected answers come from
+//     a twin set built afterwards;
 //   - the first private set of every pipeline is a deep one (150-220 nested containers), so that
 //     all pipelines are deep in the recursion of the conversion at the same time;
 //   - every other round the shared set is a directory set: files on the search path, modules read
@@ -1642,6 +1655,45 @@ func raceSummary(stderr string) string {
 	return strings.Join(keep, "\n")
 }
 
+// raceParties names the two accesses of the first race report: kind of access, the innermost
+// function of the goyang packages on each stack with its source line, and whether the goroutine
+// was a reader of the shared set or a pipeline ("" when there is no report to read).
+func raceParties(stderr string) string {
+	i := strings.Index(stderr, "WARNING: DATA RACE")
+	if i < 0 {
+		return ""
+	}
+	lines := strings.Split(stderr[i:], "\n")
+	var parts []string
+	for k := 1; k < len(lines) && len(parts) < 2; k++ {
+		l := lines[k]
+		if !(strings.HasPrefix(l, "Write at") || strings.HasPrefix(l, "Read at") || strings.HasPrefix(l, "Previous ") ||
+			strings.HasPrefix(l, "Atomic") || strings.HasPrefix(l, "Previous atomic")) {
+			continue
+		}
+		access := strings.ToLower(strings.TrimPrefix(strings.SplitN(l, " at ", 2)[0], "Previous "))
+		fn, loc, role := "", "", "pipeline"
+		for j := k + 1; j+1 < len(lines) && strings.HasPrefix(lines[j], "  "); j += 2 {
+			f := strings.TrimSpace(lines[j])
+			if strings.HasPrefix(f, "main.run(") || strings.Contains(f, ".run.") {
+				role = "reader"
+			}
+			if fn == "" && strings.Contains(f, "goyang/pkg/") {
+				fn = strings.TrimSuffix(f[strings.LastIndex(f, "/")+1:], "()")
+				loc = filepath.Base(strings.Fields(strings.TrimSpace(lines[j+1]))[0])
+			}
+		}
+		if fn == "" {
+			fn = "code outside the goyang packages"
+		}
+		parts = append(parts, fmt.Sprintf("%s in %s (%s) by a %s", access, fn, loc, role))
+	}
+	if len(parts) < 2 {
+		return ""
+	}
+	return parts[0] + " against " + parts[1]
+}
+
 // replayInfo: the failing round is re-run together with the rounds that preceded it in its
 // process (rounds [Round - Round%Batch, Round]), because what is cold in a round depends on them.
 type replayInfo struct {
@@ -1791,7 +1843,10 @@ func main() {
 				if o.rc != 0 || o.timeout {
 					what := fmt.Sprintf("child exited with status %d in round %d", o.rc, o.last)
 					if o.rc == 66 {
-						what = fmt.Sprintf("C19: the race detector reported a data race in round %d", o.last)
+						what = fmt.Sprintf("C19 clause \"no data race\": race detector report in round %d", o.last)
+						if p := raceParties(o.stderr); p != "" {
+							what += ": " + p
+						}
 					}
 					if o.timeout {
 						what = fmt.Sprintf("C19: round %d did not finish (deadlock?)", o.last)
